@@ -138,6 +138,7 @@ type Exec struct {
 	iters     map[ssa.Value]*ssa.Range
 	speculating int
 	curLoop   *loopRec
+	immutNames map[string]bool
 	subAddrIDs map[string]int
 	recBusy map[string]bool
 	exitHits map[string]int
@@ -901,8 +902,30 @@ func isCellAlloc(a *ssa.Alloc) bool {
 	return true
 }
 
+// chk: is this class of panic obligation generated for the function under verification?
+func (x *Exec) chk(kind string) bool {
+	sp := x.rootSpec
+	if sp != nil && len(sp.Checks) > 0 {
+		for _, c := range sp.Checks {
+			if c == kind {
+				return true
+			}
+		}
+		if !x.safety {
+			return false
+		}
+	}
+	if !x.safety {
+		return false
+	}
+	if sp != nil && sp.NoNil && (kind == "nil" || kind == "nilmap" || kind == "nilfunc") {
+		return false
+	}
+	return true
+}
+
 func (x *Exec) nilCheck(st *State, ref, what string) {
-	if x.safety && !(x.rootSpec != nil && x.rootSpec.NoNil) {
+	if x.chk("nil") {
 		x.obligeIn(st, "nil", what, "(not (= "+ref+" 0))", "")
 	}
 	// after the check execution continues only if non-nil
@@ -943,6 +966,7 @@ func (x *Exec) execInstr(fr *Frame, st *State, in ssa.Instruction, predPC map[*s
 		if a.K != AKCell {
 			x.nilCheck(st, a.Ref, "store "+x.srcText(i))
 			x.checkGuarded(fr, st, a, true, i)
+			x.checkImmutable(fr, st, a, i)
 		}
 		x.storeAt(st, a, x.val(fr, i.Val))
 	case *ssa.UnOp:
@@ -1178,11 +1202,11 @@ func (x *Exec) execBinOp(fr *Frame, st *State, i *ssa.BinOp) {
 		fr.env[i] = boolValT(i.Type(), x.vc.Define("scmp", sortBool, t))
 		return
 	}
-	if x.safety && (i.Op == token.QUO || i.Op == token.REM) && (s.K == SInt || s.K == SBV) {
+	if x.chk("divzero") && (i.Op == token.QUO || i.Op == token.REM) && (s.K == SInt || s.K == SBV) {
 		x.obligeIn(st, "divzero", x.srcText(i), not(eq(b.One(), x.zeroLeaf(s))), "")
 		x.assumeIn(st, not(eq(b.One(), x.zeroLeaf(s))))
 	}
-	if (i.Op == token.SHL || i.Op == token.SHR) && b.S[0].Signed && x.safety {
+	if (i.Op == token.SHL || i.Op == token.SHR) && b.S[0].Signed && x.chk("negshift") {
 		x.obligeIn(st, "negshift", x.srcText(i), x.cmp(">=", b.One(), x.zeroLeaf(b.S[0]), b.S[0]), "")
 	}
 	t, rs := x.binop(i.Op, a.One(), b.One(), s, b.S[0])
@@ -1255,7 +1279,7 @@ func (x *Exec) execTypeAssert(fr *Frame, st *State, i *ssa.TypeAssert) {
 		fr.env[i] = out
 		return
 	}
-	if x.safety {
+	if x.chk("typeassert") {
 		x.obligeIn(st, "typeassert", x.srcText(i), okd, "")
 	}
 	x.assumeIn(st, okd)
@@ -1397,7 +1421,7 @@ func (x *Exec) execIndexAddr(fr *Frame, st *State, i *ssa.IndexAddr) {
 	switch t := i.X.Type().Underlying().(type) {
 	case *types.Slice:
 		sv := x.val(fr, i.X)
-		if x.safety {
+		if x.chk("index") {
 			x.obligeIn(st, "index", x.srcText(i), and(x.cmp("<=", z, idx, is), x.cmp("<", idx, sv.L[2], is)), "")
 		}
 		x.assumeIn(st, and(x.cmp("<=", z, idx, is), x.cmp("<", idx, sv.L[2], is)))
@@ -1410,7 +1434,7 @@ func (x *Exec) execIndexAddr(fr *Frame, st *State, i *ssa.IndexAddr) {
 			ref = x.subAddr(a.ST, a.Field, a.Ref)
 		}
 		n := x.numLit(bigInt(at.Len()), is)
-		if x.safety {
+		if x.chk("index") {
 			x.obligeIn(st, "index", x.srcText(i), and(x.cmp("<=", z, idx, is), x.cmp("<", idx, n, is)), "")
 		}
 		x.assumeIn(st, and(x.cmp("<=", z, idx, is), x.cmp("<", idx, n, is)))
@@ -1428,7 +1452,7 @@ func (x *Exec) execIndex(fr *Frame, st *State, i *ssa.Index) {
 	switch t := i.X.Type().Underlying().(type) {
 	case *types.Array:
 		n := x.numLit(bigInt(t.Len()), is)
-		if x.safety {
+		if x.chk("index") {
 			x.obligeIn(st, "index", x.srcText(i), and(x.cmp("<=", z, idx, is), x.cmp("<", idx, n, is)), "")
 		}
 		if len(xv.S) == 1 && xv.S[0].K == SArr {
@@ -1437,7 +1461,7 @@ func (x *Exec) execIndex(fr *Frame, st *State, i *ssa.Index) {
 		}
 	case *types.Basic: // string
 		l := x.strLen(xv.One())
-		if x.safety {
+		if x.chk("index") {
 			x.obligeIn(st, "index", x.srcText(i), and(x.cmp("<=", z, idx, is), x.cmp("<", idx, l, is)), "")
 		}
 		x.assumeIn(st, and(x.cmp("<=", z, idx, is), x.cmp("<", idx, l, is)))
@@ -1483,7 +1507,7 @@ func (x *Exec) execSlice(fr *Frame, st *State, i *ssa.Slice) {
 			max = sv.L[3]
 		}
 		cond := and(x.cmp("<=", z, lo, is), x.cmp("<=", lo, hi, is), x.cmp("<=", hi, max, is), x.cmp("<=", max, sv.L[3], is))
-		if x.safety {
+		if x.chk("slice") {
 			x.obligeIn(st, "slice", x.srcText(i), cond, "")
 		}
 		x.assumeIn(st, cond)
@@ -1500,7 +1524,7 @@ func (x *Exec) execSlice(fr *Frame, st *State, i *ssa.Slice) {
 			hi = l
 		}
 		cond := and(x.cmp("<=", z, lo, is), x.cmp("<=", lo, hi, is), x.cmp("<=", hi, l, is))
-		if x.safety {
+		if x.chk("slice") {
 			x.obligeIn(st, "slice", x.srcText(i), cond, "")
 		}
 		x.assumeIn(st, cond)
@@ -1531,7 +1555,7 @@ func (x *Exec) execSlice(fr *Frame, st *State, i *ssa.Slice) {
 			max = n
 		}
 		cond := and(x.cmp("<=", z, lo, is), x.cmp("<=", lo, hi, is), x.cmp("<=", hi, max, is), x.cmp("<=", max, n, is))
-		if x.safety {
+		if x.chk("slice") {
 			x.obligeIn(st, "slice", x.srcText(i), cond, "")
 		}
 		x.assumeIn(st, cond)
@@ -1547,7 +1571,7 @@ func (x *Exec) execMakeSlice(fr *Frame, st *State, i *ssa.MakeSlice) {
 	l := x.idxConv(x.val(fr, i.Len))
 	c := x.idxConv(x.val(fr, i.Cap))
 	cond := and(x.cmp("<=", z, l, is), x.cmp("<=", l, c, is))
-	if x.safety {
+	if x.chk("makeslice") {
 		x.obligeIn(st, "makeslice", x.srcText(i), cond, "")
 		if b := x.allocBudget(fr); b != "" {
 			x.obligeIn(st, "makeslice.budget", x.srcText(i), x.cmp("<=", c, b, is), "allocation bounded by contract budget")
@@ -1592,7 +1616,7 @@ func (x *Exec) execLookup(fr *Frame, st *State, i *ssa.Lookup) {
 		idx := x.idxConv(kv)
 		z := x.zeroLeaf(is)
 		l := x.strLen(mv.One())
-		if x.safety {
+		if x.chk("index") {
 			x.obligeIn(st, "index", x.srcText(i), and(x.cmp("<=", z, idx, is), x.cmp("<", idx, l, is)), "")
 		}
 		x.assumeIn(st, and(x.cmp("<=", z, idx, is), x.cmp("<", idx, l, is)))
@@ -1635,7 +1659,7 @@ func (x *Exec) execMapUpdate(fr *Frame, st *State, i *ssa.MapUpdate) {
 	mv := x.val(fr, i.Map)
 	kv := x.val(fr, i.Key)
 	vv := x.val(fr, i.Value)
-	if x.safety && !(x.rootSpec != nil && x.rootSpec.NoNil) {
+	if x.chk("nilmap") {
 		x.obligeIn(st, "nilmap", x.srcText(i), not(eq(mv.One(), "0")), "")
 	}
 	x.assumeIn(st, not(eq(mv.One(), "0")))
@@ -1775,7 +1799,7 @@ func (x *Exec) execPanic(fr *Frame, st *State, i *ssa.Panic) {
 			}
 		}
 		x.obligeIn(st, "panic", "only-when-declared "+x.srcText(i), or(cs...), "")
-	} else if x.safety || fr.root {
+	} else if x.chk("panic") || fr.root {
 		x.obligeIn(st, "panic", "unreachable "+x.srcText(i), "false", "")
 	}
 	st.dead = true
